@@ -32,6 +32,14 @@ CLAIMS.update({
     "C20": dict(text="Theorems C20_frame / C20_node_frame (source-restricted inference and node calls write only descendants of the source, for every KB, direction, max_steps, query), C20_verdict_final (a point verdict survives every further inference on data with a consistent reading), C20_restricted_sound and C20_restricted_below_full (the restricted run is never tighter than a contradiction-free fixpoint of the full run).",
                 design="7/C20", technique="Coq proof (frame rule over DFS descendants + monotone tightening) + exact differential correspondence"),
 })
+
+CLAIMS.update({
+    "C04": dict(text="Theorems C04_point (after Model.upward() every traversed object holds the point value of its weighted Lukasiewicz truth function: all weights >= 0, biases, alpha, both variants, every nesting depth, shared objects/twins/Iff/XOr sub-objects; induction over the topological order of the traversal), C04_interpretation_exists (the interpretation exists: recursive evaluation), C04_upward_exact (general interval form), C04_classical_* (n-ary And/Or, Implies, Not, Iff = equivalence, XOr = exactly-one on {0,1}), C04_kleene + C04_kleene_tables (inputs from {F,U,T} stay in {F,U,T} and follow min/max/involution, any nesting), C04_dual_* (Or vs negated And of negations, Implies vs Or with negated antecedent; upward and downward, activation level).",
+                design="7/C04", technique="Coq proof (induction over traversal order; finite Boolean lemmas lifted to n-ary lists) + exact differential correspondence + exhaustive classical/three-valued assignments on the implementation",
+                note=NOTE_TB + " Classical/Kleene theorems are for default parameters (unit weights, bias 1). Model-level agreement of dual formulations is monitored on the implementation (pairs of KBs), the theorem is at activation level."),
+    "C08": dict(text="Theorems C08_registered_exactly_once (for ANY sequence of add_knowledge calls - repeated roots, inner formulae added again, set_query on a member - every sub-formula object of every root has exactly one key in Model.nodes, that key is its formula number and lies below num_formulae), C08_numbers_stable, C08_nothing_else_registered, C08_traversal_reaches_once (every model-wide traversal visits every sub-formula object exactly once), C08_same_object (the step executed at an object writes that object and its own operand objects). Objects are identities: twins and Iff/XOr private sub-formulae are distinct. Holds for the tree after fix commits 6592514 and c4a5170.",
+                design="7/C08", technique="Coq proof (registry invariant by induction over add_knowledge calls; pre-order numbering model) + exact differential correspondence of formula numbers / Model.nodes + identity census on the implementation"),
+})
 NA_REASON = "check not built yet in this round (planned: see DESIGN.md section 7); not claimed"
 checks, na = [], []
 for p in props:
@@ -56,7 +64,7 @@ m = {
     "setup_cmd": "bin/setup",
     "hooks": {"guard": "LNN_VERIF", "enable": "no hooks: the harness imports lnn from /repo's working tree (PYTHONPATH=/repo) and only reads public attributes",
               "baseline_off_cmd": "cd /repo && /venv/bin/python -m pytest -q -p no:cacheprovider --timeout=900 -n 12",
-              "source_commits": ["6592514", "3aabc63", "5319eb9"], "add_only": True},
+              "source_commits": ["6592514", "3aabc63", "5319eb9", "c4a5170"], "add_only": True},
     "engines": [{"name": "coq-model", "path": "/verif/coq", "serves_properties": sorted(CLAIMS),
                  "kind_free_text": "hand-written executable Gallina model of LNN over Q + theorems per property (Coq 8.16.1), tied to /repo by generated tables and exact differential correspondence (model extracted to OCaml)"}],
     "checks": checks,
